@@ -79,9 +79,9 @@ CHECKS = {
         'lies in [0, 2^n), no exception is raised, and a seeded call never '
         'consults an entropy source; JavaRandom equals the '
         'java.util.Random/BigInteger reference for every 64-bit seed; '
-        'TruncLcgRand equals the truncated-LCG stream for byte-multiple '
-        'output sizes.',
-        'os.urandom / shake / numpy / MT19937 return arbitrary bytes; xor/or/'
+        'TruncLcgRand equals the truncated-LCG stream for byte-multiple output sizes; purity over call histories '
+        '(n_b, n_a, n_b) on one generator object for 18 size pairs and every seeded generator.',
+        'os.urandom returns arbitrary bytes; shake / numpy / MT19937 arbitrary but the same for the same seed and call index; xor/or/'
         'and on unbounded ints uninterpreted with range axioms; x % 2^k '
         '(k >= 16) abstracted in range jobs; retry loops bounded to one retry; '
         'known findings F5, F7'),
@@ -97,8 +97,8 @@ CHECKS = {
         'also for two curves used one after the other; bits2int for every '
         'named curve, every hash value and 21 (70) hash byte lengths 0..66; '
         'ECDSAValues/PublicPoint on arbitrary byte strings incl. leading '
-        'zeros; int/bytes round trips for all x < 2^40 (2^72) and all byte '
-        'strings up to 4 (6) bytes.',
+        'zeros; int/bytes round trips for all x < 2^40 (2^48) and all byte strings up to 4 (5) bytes; '
+        'Hex2Bytes for every hex string of up to 12 (24) digits.',
         'gmpy.invert by contract (inverse exists: n prime assumed); '
         'int.from_bytes/to_bytes modelled on lists of byte terms; fake '
         'protobuf messages generated from paranoid.proto'),
@@ -113,12 +113,11 @@ CHECKS = {
         'and byte-aligned and unaligned block sizes; FrequencyCount / '
         'SubSequences for every string of 6..9 (12) bits with and without '
         'wrap-around and the 4-bit-stride fast path on 101..107-bit strings '
-        'with 8 symbolic bits; Scatter up to 6 (8) bits; both matrix-rank '
-        'implementations on every 3x3, 4x3, 3x4 (.. 5x4) binary matrix '
-        'against the subset-XOR counting definition.',
+        'with 8 symbolic bits; Scatter up to 6 (8) bits; both matrix-rank implementations on every 3x3, 4x3, 3x4 (.. 5x4) binary matrix against the subset-XOR counting definition; '
+        'Bits (+-1 expansion) for every string of length 0..12 (24).',
         'gmpy.popcount as sum of bits; int.to_bytes/from_bytes on lists of '
         'byte terms; no-overflow side conditions of the chosen widths are '
-        'discharged; ReverseBits/Bits outside'),
+        'discharged; format / bytes.translate / array modelled for Bits; ReverseBits outside'),
     'C12': (
         True, '5/C12',
         'symbolic execution of the real NIST test functions with symbolic '
@@ -133,8 +132,9 @@ CHECKS = {
         'data thresholds and parameter ladders for every n < 2^31; linear-'
         'complexity category arithmetic for every complexity value and 8 '
         '(37) block sizes of both parities against SP 800-22 3.10; Maurer '
-        'distances for every block sequence (L = 1, 2); non-overlapping '
-        'templates up to length 8 (10).',
+        'distances for every block sequence (L = 1, 2); non-overlapping templates up to length 8 (10) and the template-length ladder for every n; '
+        'CumulativeSumsPValue equals the SP 800-22 2.13 series term by term for z in {1,2,3,7} (8 values) '
+        'and every n <= 14 z (30 z).',
         'erfc/erf/sqrt/log/igamc/BinomialCdf uninterpreted (sqrt with sign '
         'axioms); util.Bits hands over the symbolic +-1 list; float '
         'constants as exact binary rationals; numerics, tables and Spectral '
@@ -204,8 +204,8 @@ CHECKS = {
         'size class boundary; EC validity / weak-curve / weak-private-key '
         'checks for batches 0..2 over known, binary and undefined curve ids '
         'with coordinates up to 2^530; CheckECKeySmallDifference with '
-        'coordinates in [0, 2p); nonce checks with 1, 2, 24 (.., 48) '
-        'signatures and a havocked lattice reduction; ground runs of the '
+        'coordinates in [0, 2p); nonce checks with 1, 2, 24 (.., 48) signatures and a havocked lattice reduction, and with batches mixing '
+        'unknown, binary-field and supported issuer curves; ground runs of the '
         'entry points on empty batches and degenerate moduli.',
         'lll.reduce / BatchMultiplyG / ExtendedBatchDL / HNP-for-curve by '
         'contract; Cr50 internal sanity branch assumed unreachable; text '
@@ -263,9 +263,12 @@ CHECKS = {
         'Euler criterion; IsValidPublicKey <=> affine point with reduced '
         'coordinates for every pair in [-3, 2p+3) on toy fields; '
         'CheckValidECKey / CheckWeakCurve for every curve id in [-1, 22]; '
-        'generate_prime tests v + 31 - v mod 30 and then the increments '
-        '6,4,2,4,2,4,6,2.',
-        'denylists (hash, cipher, table look-up) outside; the real prime '
+        'generate_prime tests v + 31 - v mod 30 and then the increments 6,4,2,4,2,4,6,2; '
+        'generate_key follows the forge state machine for every candidate sequence of up to 4 (5) primes '
+        'of 8, 16, 1024 bits; CheckOpensslDenylist hashes Modulus=<canonical upper-case hex of n> and asks '
+        'the list for RSA-<bits>:<last 20 digits>, verdict = the list answer, for every 64..70-bit modulus '
+        'with 0..2 leading zero bytes.',
+        'SHA-1 an injective token, Storage answers arbitrary; keypair table look-up outside; the real prime '
         'fields only through toy curves and concrete boundary encodings in '
         'the replay oracle'),
     'C10': (
@@ -296,8 +299,8 @@ CHECKS = {
         'mapping, _IssuerDLogs, and the nonce checks with arbitrary guesses',
         'Bounded symbolic model checking of soundness: whatever the table / '
         'lattice / guess producers deliver, a recorded log e satisfies '
-        'e*G = P for arbitrary target points (bound 4, 9, 16 (30)); every '
-        'relation text "key - Q = k*G" holds for some key of the batch; '
+        'e*G = P for arbitrary target points (bound 4, 9, 16 (30)); every relation text "key - Q = k*G" holds for the key it is recorded for and Q is another artifact (3 keys + history, exact table); '
+        'mixed-curve batches never carry a log of another curve; '
         'ExtendedBatchDL maps indices back so that the value is congruent to '
         'the private key (shifted, repeated, negated words; secp256r1 and '
         '72-bit orders); _IssuerDLogs returns the guess whose point equals '
